@@ -1,9 +1,12 @@
 package sym
 
 import (
+	"fmt"
 	"go/types"
 	"reflect"
 	"strings"
+
+	"golang.org/x/tools/go/ssa"
 )
 
 // Models for the agent package: ideal AEAD, JSON / YAML documents, HTTP helpers (DESIGN §3).
@@ -156,9 +159,92 @@ func registerWeb(p *Program) {
 		return Iface{}
 	}
 	I["encoding/json.Marshal"] = func(in *Interp, fr *frame, a []Value) Value {
-		// opaque document: remembered so that a later request body built from it can be decoded
-		in.env.lastMarshalled = a[0]
-		return Tuple{in.newByteSlice(in.strConst("{marshalled}").B), Iface{}}
+		// the text is opaque; the document (built from the value following its json tags) is
+		// remembered under the returned buffer so that an outgoing request body can be decoded
+		sl := in.newByteSlice(in.strConst("{marshalled}").B)
+		if in.env.marshalled == nil {
+			in.env.marshalled = map[*Obj]Iface{}
+		}
+		in.env.marshalled[sl.Obj] = in.encodeDoc(a[0].(Iface), "json")
+		return Tuple{sl, Iface{}}
+	}
+
+	I["vp:vpRemoteURL"] = func(in *Interp, fr *frame, a []Value) Value { return in.strConst("https://master.example/api/update") }
+	// ---- net/http client: an outgoing request is handed to the harness endpoint ----
+	I["net/http.NewRequest"] = func(in *Interp, fr *frame, a []Value) Value {
+		t := in.namedType("net/http", "Request")
+		o := in.newObj(t)
+		in.setField(o, t, "Method", a[0])
+		in.setField(o, t, "Header", &MapObj{KT: types.Typ[types.String]})
+		rm := &httpReqModel{method: a[0].(Str), url: a[1].(Str)}
+		if body := a[2].(Iface); body.T != nil {
+			rm.hasBody = true
+			if pt, ok := body.T.(*types.Pointer); ok {
+				if n, ok := pt.Elem().(*types.Named); ok && n.Obj().Pkg() != nil && n.Obj().Pkg().Path() == "bytes" && n.Obj().Name() == "Reader" {
+					bp := body.V.(Ptr)
+					bst := under(n).(*types.Struct)
+					if sl, ok := in.loadAt(bp.Obj, bp.Off+in.fieldOffset(bst, 0), bst.Field(0).Type()).(Slice); ok && sl.Obj != nil {
+						if d, ok := in.env.marshalled[sl.Obj]; ok {
+							rm.doc, rm.hasDoc = d, true
+						}
+					}
+				}
+			}
+		}
+		o.Tag = rm
+		return Tuple{Ptr{Obj: o}, Iface{}}
+	}
+	I["(*net/http.Client).Do"] = func(in *Interp, fr *frame, a []Value) Value {
+		rp := a[1].(Ptr)
+		rm, ok := rp.Obj.Tag.(*httpReqModel)
+		if !ok {
+			panic(engineErr("http.Client.Do on a request not built by http.NewRequest"))
+		}
+		var ep *ssa.Function
+		for f := fr; f != nil && ep == nil; f = f.caller {
+			if f.fn.Pkg != nil {
+				ep = f.fn.Pkg.Func("vpRemoteEndpoint")
+			}
+		}
+		if ep == nil {
+			return Tuple{Ptr{}, in.newErrorf("dial tcp: connection refused (no vpRemoteEndpoint in the harness)")}
+		}
+		t := in.namedType("net/http", "Request")
+		st := under(t).(*types.Struct)
+		var hdr *MapObj
+		for i := 0; i < st.NumFields(); i++ {
+			if st.Field(i).Name() == "Header" {
+				hdr, _ = in.loadAt(rp.Obj, rp.Off+in.fieldOffset(st, i), st.Field(i).Type()).(*MapObj)
+			}
+		}
+		ctype := Str{}
+		if hdr != nil {
+			for _, e := range hdr.Entries {
+				if ks, ok := e.K.(Str).Concrete(); ok && strings.EqualFold(ks, "Content-Type") {
+					if sl := e.V.(Slice); sl.Len > 0 {
+						ctype = sl.Obj.Slots[sl.Off].(Str)
+					}
+				}
+			}
+		}
+		doc := Iface{}
+		if rm.hasDoc {
+			doc = rm.doc
+		}
+		// vpRemoteEndpoint(method, url, contentType string, doc interface{}) int: status, < 0 = transport error
+		code := in.call(ep, []Value{rm.method, rm.url, ctype, doc}, nil, fr).(*Term)
+		if !code.IsConst() {
+			panic(engineErr("vpRemoteEndpoint returned a symbolic status"))
+		}
+		cv := code.Val
+		if int64(cv) < 0 {
+			return Tuple{Ptr{}, in.newErrorf("Post: transport error")}
+		}
+		rt := in.namedType("net/http", "Response")
+		ro := in.newObj(rt)
+		in.setField(ro, rt, "StatusCode", in.intConst(int64(cv)))
+		in.setField(ro, rt, "Status", in.strConst(fmt.Sprintf("%d", cv)))
+		return Tuple{Ptr{Obj: ro}, Iface{}}
 	}
 
 	// ---- yaml.v3 ----
@@ -320,6 +406,78 @@ func registerWeb(p *Program) {
 		return nil
 	}
 	I["(net/http.Header).Del"] = I["net/http.Header.Del"]
+}
+
+type httpReqModel struct {
+	method, url Str
+	hasBody     bool
+	hasDoc      bool
+	doc         Iface
+}
+
+// encodeDoc is the inverse of decodeDoc for flat structs of strings, booleans and integers:
+// a map[string]interface{} document following the struct tags (omitempty honoured).
+func (in *Interp) encodeDoc(v Iface, tagKey string) Iface {
+	if v.T == nil {
+		return Iface{}
+	}
+	t := v.T
+	val := v.V
+	if pt, ok := under(t).(*types.Pointer); ok {
+		p := val.(Ptr)
+		if p.Obj == nil {
+			return Iface{}
+		}
+		t = pt.Elem()
+		val = in.loadAt(p.Obj, p.Off, t)
+	}
+	st, ok := under(t).(*types.Struct)
+	if !ok {
+		return Iface{T: t, V: val} // scalars are their own documents
+	}
+	sv, ok := val.(StructV)
+	if !ok {
+		panic(engineErr("encodeDoc: unexpected struct representation %T", val))
+	}
+	m := &MapObj{KT: types.Typ[types.String]}
+	for i := 0; i < st.NumFields(); i++ {
+		f := st.Field(i)
+		if !f.Exported() {
+			continue
+		}
+		name, opts := structTag(st.Tag(i), tagKey)
+		if name == "-" {
+			continue
+		}
+		if name == "" {
+			name = f.Name()
+		}
+		fv := sv[i]
+		switch u := under(f.Type()).(type) {
+		case *types.Basic:
+			if strings.Contains(opts, "omitempty") {
+				switch x := fv.(type) {
+				case Str:
+					if len(x.B) == 0 {
+						continue
+					}
+				case *Term:
+					if x.Sort.K == SBool {
+						if !in.Branch(x) {
+							continue
+						}
+					} else if in.Branch(in.ts.Eq(x, in.ts.Const(x.Sort.W, 0))) {
+						continue
+					}
+				}
+			}
+			_ = u
+			m.Entries = append(m.Entries, mapEntry{in.strConst(name), Iface{T: f.Type(), V: fv}})
+		default:
+			panic(engineErr("encodeDoc: field %s of type %v is not modelled", f.Name(), f.Type()))
+		}
+	}
+	return Iface{T: types.NewMap(types.Typ[types.String], types.NewInterfaceType(nil, nil)), V: m}
 }
 
 type cliModel struct {
